@@ -369,6 +369,26 @@ fn part(tier: Tier) -> Part {
             fails.push((c.clone(), e));
         }
     });
+    if !quick && !inproc {
+        // two more dense sweeps at other packet sizes
+        for b in [BufCfg::Fake(6144), BufCfg::Fake(8192)] {
+            match b.sizes() {
+                Ok((g1, g)) => {
+                    let top2 = g1 + 3 * g + 16;
+                    let more: Vec<Case> = (0..=top2).map(|len| Case::Bytes { buf: b.clone(), len }).collect();
+                    sweep_batched(&more, 128, 120.0, &b.cfg(false), &run_case, &mut |_, c, r| {
+                        n_dense += 1;
+                        if let Err(e) = r {
+                            fails.push((c.clone(), e));
+                        }
+                    });
+                    p.notes.push(format!("dense sweep also at {:?}: 0..={}", b, top2));
+                },
+                Err(e) if e.contains("died") => p.fail(format!("sending/receiving one 4-packet message killed the process ({}) with {:?}", e, b), json!({"probe": "sizes", "buf": b})),
+                Err(e) => machinery.push(e),
+            }
+        }
+    }
     p.count("dense_lengths", n_dense);
     p.sample(json!({"kind": "dense bytes sweep", "buf": dense_buf, "lengths": format!("0..={}", top)}));
 
